@@ -270,7 +270,11 @@ where
                                     );
                                 } else {
                                     for s in &**sinks.load() {
-                                        call!(s, message.clone(), "to sink: {message:?}");
+                                        // skip sinks that detached (or were completed by a nested
+                                        // emission) while this fan-out was in progress
+                                        if sinks.load().iter().any(|attached| Arc::ptr_eq(attached, s)) {
+                                            call!(s, message.clone(), "to sink: {message:?}");
+                                        }
                                     }
                                 }
                                 if let Message::Error(_) | Message::Terminate = message {
